@@ -181,7 +181,11 @@ mutual
     body, not those of `with` blocks nested in it (`visit_ModifiedBlock` records none) -/
 def Stmt.hasAssignShallow : Stmt → Bool
   | .expr _ => false
-  | .assign _ _ => true
+  | .assign t _ =>
+      -- `xs[i] = v` assigns no variable (`xs` is only used), so `vars.assigned` stays empty
+      match t with
+      | .place _ idx => idx.isNil
+      | _ => true
   | .ite _ t f => t.hasAssignShallow || f.hasAssignShallow
   | .while _ b => b.hasAssignShallow
   | .withBlock _ _ _ => false
